@@ -9,7 +9,8 @@ cd $wt || exit 2
 git diff > $sd/now.diff
 cmp -s $sd/now.diff $sd/patch.diff || echo "NOTE: worktree diff differs from patch.diff"
 /venv/bin/python $sd/demo.py > $out/demo_with.txt 2>&1; w=$?
-git stash -q; /venv/bin/python $sd/demo.py > $out/demo_without.txt 2>&1; wo=$?; git stash pop -q
+# (not `git stash`: the stash is shared by all worktrees of /repo and agents may be using it)
+git diff > $sd/.mine.diff; git apply -R $sd/.mine.diff; /venv/bin/python $sd/demo.py > $out/demo_without.txt 2>&1; wo=$?; git apply $sd/.mine.diff
 td=$(mktemp -d /var/tmp/seedtmp.XXXXXX)
 t=$(TMPDIR=$td /venv/bin/python -m pytest -q -p no:cacheprovider --timeout=600 -n 6 --no-cov --deselect test/test_interface.py::test_version_update_pypi 2>&1 | grep -v conda | tail -1)
 rm -rf $td
